@@ -24,6 +24,7 @@ package c15
 
 import (
 	"fmt"
+	"os"
 	"strings"
 
 	"verif/harness/internal/hx"
@@ -191,6 +192,9 @@ func snapLine(c *hx.Ctx, a *metax.Inst) bool {
 func stepBoth(c *hx.Ctx, ln int, a, b *metax.Inst, ra, rb *hx.Rng, cmd metax.Cmd, hist *[]string, kinds map[string]bool, okAfter *int, afterSnap bool, noSki bool) bool {
 	a.ShuffleMaps(ra)
 	b.ShuffleMaps(rb)
+	// the target policy holds measurements of different sharding types (or with and without a
+	// shard key): "the first measurement of the map" decides the outcome
+	mixed := a.PickMatters(cmd)
 	resA := a.Apply(cmd)
 	resB := b.Apply(cmd)
 	*hist = append(*hist, cmd.Desc+" => "+resA.String())
@@ -208,7 +212,7 @@ func stepBoth(c *hx.Ctx, ln int, a, b *metax.Inst, ra, rb *hx.Rng, cmd metax.Cmd
 		c.Count("err:" + cmd.Kind)
 	}
 	if resA != resB {
-		c.Violation(ln, classify(a, cmd, resA, resB, nil, noSki), fmt.Sprintf("results differ: %s vs %s after %s", resA, resB, strings.Join(tail(*hist, 14), " | ")))
+		c.Violation(ln, classify(a, cmd, resA, resB, nil, noSki, mixed), fmt.Sprintf("results differ: %s vs %s after %s", resA, resB, strings.Join(tail(*hist, 14), " | ")))
 		return false
 	}
 	if resA.Panic {
@@ -218,13 +222,16 @@ func stepBoth(c *hx.Ctx, ln int, a, b *metax.Inst, ra, rb *hx.Rng, cmd metax.Cmd
 	da, db := a.DumpData(), b.DumpData()
 	if da.String() != db.String() {
 		d := metax.Diff(da, db, 4)
-		c.Violation(ln, classify(a, cmd, resA, resB, d, noSki), fmt.Sprintf("catalogues differ at %s after %s", strings.Join(d, "; "), strings.Join(tail(*hist, 14), " | ")))
+		c.Violation(ln, classify(a, cmd, resA, resB, d, noSki, mixed), fmt.Sprintf("catalogues differ at %s after %s", strings.Join(d, "; "), strings.Join(tail(*hist, 14), " | ")))
 		return false
 	}
 	return true
 }
 
 func tail(xs []string, n int) []string {
+	if os.Getenv("VERIF_FULLHIST") != "" {
+		return xs // debugging aid: the whole command log in violation descriptions
+	}
 	if len(xs) > n {
 		return xs[len(xs)-n:]
 	}
@@ -232,7 +239,7 @@ func tail(xs []string, n int) []string {
 }
 
 // classify maps a divergence to the finding class it belongs to ("" = none: a violation).
-func classify(a *metax.Inst, cmd metax.Cmd, ra, rb metax.Result, diff []string, noSki bool) string {
+func classify(a *metax.Inst, cmd metax.Cmd, ra, rb metax.Result, diff []string, noSki bool, mixed bool) string {
 	all := strings.Join(diff, ";")
 	switch {
 	case a.StartBeforeInt64Range():
@@ -246,6 +253,10 @@ func classify(a *metax.Inst, cmd metax.Cmd, ra, rb metax.Result, diff []string, 
 		return "recover_metadata_on_fresh_store"
 	case noSki && diff == nil && (cmd.Kind == "CreateShardGroup" || cmd.Kind == "CreateMeasurement" || cmd.Kind == "AlterShardKey"):
 		return "maporder_measurement_without_shardkey"
+	case mixed && !noSki && diff == nil && (cmd.Kind == "CreateShardGroup" || cmd.Kind == "CreateMeasurement" || cmd.Kind == "AlterShardKey"):
+		// a name re-created with another sharding type while its old incarnation is still in the
+		// policy (marked deleted): measurements of both types, the first of the map decides
+		return "maporder_mixed_sharding_types"
 	}
 	return ""
 }
